@@ -1,5 +1,6 @@
 import HdVerif.Proofs.SegGeom
 import HdVerif.Proofs.SegGeomTie
+import HdVerif.Proofs.SegFrames
 /-! # C03  Derived images sit where the user placed them in space
 
 Property theorems only (helper lemmas: `Proofs/SegGeom.lean`; T3 lemmas of C04: `Proofs/TilingStd.lean`).
@@ -16,6 +17,7 @@ lists (frame index, output slot), `VolOut.aff` is the affine of the returned vol
 is C01, choice of segments C02. -/
 namespace HdVerif.C03
 open HdVerif HdVerif.Gen HdVerif.SegGeom HdVerif.SegGeom.V3 HdVerif.SegGeomLemmas HdVerif.TilingLemmas
+open HdVerif.SegFrames HdVerif.SegFramesLemmas
 
 /-! ## 1. Segmentation from a volume reads back where the input put it -/
 
@@ -814,6 +816,211 @@ theorem from_attributes_uses_the_source (origin rowCos colCos : V3) (psRow psCol
     fromAttributes origin rowCos colCos psRow psCol sbs = SegGeomTie.fromAttributesGen origin rowCos colCos psRow psCol sbs :=
   SegGeomTie.fromAttributes_eq_gen origin rowCos colCos psRow psCol sbs
 
+/-! ## 8. The frames the constructor stores (`Model/SegFrames.lean`: `Segmentation.__init__`'s frame loop)
+
+Which frames exist, in which order, with which PlanePositionSequence and DimensionIndexValues — for EVERY list of plane
+positions at pairwise different distances along the normal (planes of a volume, source planes in any order, explicit
+`plane_positions`), any orientation, any emptiness pattern, label map or individual segments.  `P k` is the position of
+input plane `k`, `distOf P rowCos colCos k` its distance along the right-handed (D, R) normal the constructor sorts by.
+The hand-written loop is tied to the source by `frame_loop_uses_the_source` (regenerated skip test, dimension index
+value, first index, effective `omit_empty_frames`: TC03loop), the fingerprint `frame_loop_wiring` (TC03loop, TC03idxval,
+TC03dist) and the correspondence stream `frames` (L1: ReferencedSegmentNumber, position and DimensionIndexValues of every
+stored frame, in stored order, in memory and after a file round trip). -/
+
+/-- **Which frames are stored, and their dimension index values.**  The constructor accepts planes at pairwise different
+distances; a frame exists exactly for every segment of the loop and every kept plane (all planes, or the non-empty ones
+with `omit_empty_frames`) unless the segment is absent there and empty frames are omitted; its dimension index value is
+1 + the number of kept planes before its plane along the normal. -/
+theorem stored_frames_and_their_index_values (P : Nat → V3) (rowCos colCos : V3) (nonempty : List Bool)
+    (hinj : ∀ a < nonempty.length, ∀ b < nonempty.length, distOf P rowCos colCos a = distOf P rowCos colCos b → a = b)
+    (om : Bool) (segs : List (Option Nat)) (present : Option Nat → Nat → Bool) :
+    ∃ frames, segFrames ((List.range nonempty.length).map P) rowCos colCos nonempty om segs present = .ok frames ∧
+      ∀ f : Frame, f ∈ frames ↔
+        f.seg ∈ segs ∧ f.plane ∈ keptPlanes nonempty om ∧ skipped f.seg (omitEff nonempty om) (present f.seg f.plane) = false ∧
+        f.div = 1 + (((keptPlanes nonempty om).filter
+          (fun k => decide (distOf P rowCos colCos k < distOf P rowCos colCos f.plane))).length : Int) :=
+  mem_segFrames P rowCos colCos nonempty hinj om segs present
+
+/-- **Every stored frame carries the position of its own input plane** (by induction over the frames): the per-frame
+positions, in stored order, are `P (plane of the frame)` — whatever the order of the input planes, the handedness, the
+omitted planes and the skipped frames. -/
+theorem stored_frame_positions (P : Nat → V3) (rowCos colCos : V3) (nonempty : List Bool)
+    (hinj : ∀ a < nonempty.length, ∀ b < nonempty.length, distOf P rowCos colCos a = distOf P rowCos colCos b → a = b)
+    (om : Bool) (segs : List (Option Nat)) (present : Option Nat → Nat → Bool) (frames : List Frame)
+    (hok : segFrames ((List.range nonempty.length).map P) rowCos colCos nonempty om segs present = .ok frames) :
+    framePositionsOf ((List.range nonempty.length).map P) frames = some (frames.map (fun f => P f.plane)) :=
+  framePositions_of_segFrames P rowCos colCos nonempty hinj om segs present frames hok
+
+/-- **For a volume the stored position of every frame is the affine image of its array index**: frame `f` carries
+`pixel_array[f.plane]` and is recorded at `affine · (f.plane, 0, 0)`, for every admissible geometry (any rotation, either
+handedness, anisotropic spacing), every shape and every emptiness pattern. -/
+theorem volume_frame_positions_are_affine_images {g : Geom} (hg : Admissible g) (nonempty : List Bool) (om : Bool)
+    (segs : List (Option Nat)) (present : Option Nat → Nat → Bool) :
+    ∃ frames, segFrames ((List.range nonempty.length).map (planePosition g)) g.d2 g.d1 nonempty om segs present = .ok frames ∧
+      framePositionsOf ((List.range nonempty.length).map (planePosition g)) frames
+        = some (frames.map (fun f => g.aff.apply (f.plane : Int) 0 0)) ∧
+      ∀ f ∈ frames, f.plane < nonempty.length := by
+  have hinj : ∀ a < nonempty.length, ∀ b < nonempty.length,
+      distOf (planePosition g) g.d2 g.d1 a = distOf (planePosition g) g.d2 g.d1 b → a = b := fun a _ b _ h => volume_dist_inj hg a b h
+  obtain ⟨frames, hok, hmem⟩ := mem_segFrames (planePosition g) g.d2 g.d1 nonempty hinj om segs present
+  refine ⟨frames, hok, framePositions_of_segFrames (planePosition g) g.d2 g.d1 nonempty hinj om segs present frames hok, ?_⟩
+  intro f hf
+  exact keptPlanes_bound nonempty om f.plane ((hmem f).mp hf).2.1
+
+/-- **Dimension index values follow the normal**: of two stored frames the one with the smaller dimension index value
+lies before the other along the normal, and conversely — DimensionIndexValues order the frames in space. -/
+theorem dimension_index_follows_the_normal (P : Nat → V3) (rowCos colCos : V3) (nonempty : List Bool)
+    (hinj : ∀ a < nonempty.length, ∀ b < nonempty.length, distOf P rowCos colCos a = distOf P rowCos colCos b → a = b)
+    (om : Bool) (segs : List (Option Nat)) (present : Option Nat → Nat → Bool) (frames : List Frame)
+    (hok : segFrames ((List.range nonempty.length).map P) rowCos colCos nonempty om segs present = .ok frames)
+    (f f' : Frame) (hf : f ∈ frames) (hf' : f' ∈ frames) :
+    f.div < f'.div ↔ distOf P rowCos colCos f.plane < distOf P rowCos colCos f'.plane :=
+  div_lt_iff P rowCos colCos nonempty hinj om segs present frames hok f f' hf hf'
+
+/-- **Frames are stored in the order of their DimensionIndexValues** (segments in ascending number outside, position
+inside), strictly — so no two frames share their DimensionIndexValues. -/
+theorem frames_stored_in_dimension_order (P : Nat → V3) (rowCos colCos : V3) (nonempty : List Bool)
+    (hinj : ∀ a < nonempty.length, ∀ b < nonempty.length, distOf P rowCos colCos a = distOf P rowCos colCos b → a = b)
+    (om : Bool) (segs : List (Option Nat)) (hsegs : segs.Pairwise (fun a b => segRank a < segRank b))
+    (present : Option Nat → Nat → Bool) (frames : List Frame)
+    (hok : segFrames ((List.range nonempty.length).map P) rowCos colCos nonempty om segs present = .ok frames) :
+    frames.Pairwise (fun a b => segRank a.seg < segRank b.seg ∨ (a.seg = b.seg ∧ a.div < b.div)) :=
+  frames_in_dimension_order P rowCos colCos nonempty hinj om segs hsegs present frames hok
+
+/-- **Planes that coincide along the normal are refused** ("Input image/frame positions are not unique …"): the
+constructor never stores two planes it could not tell apart on read-back. -/
+theorem coincident_planes_refused (P : Nat → V3) (rowCos colCos : V3) (nonempty : List Bool) (a b : Nat) (ha : a < nonempty.length)
+    (hb : b < nonempty.length) (hab : a ≠ b) (hd : distOf P rowCos colCos a = distOf P rowCos colCos b)
+    (om : Bool) (segs : List (Option Nat)) (present : Option Nat → Nat → Bool) :
+    segFrames ((List.range nonempty.length).map P) rowCos colCos nonempty om segs present = .error .value :=
+  segFrames_refuses P rowCos colCos nonempty a b ha hb hab hd om segs present
+
+/-- **Write → read of the constructor's own frames (clause 1, composed).**  For every admissible volume geometry, every
+emptiness pattern, `omit_empty_frames` on or off, label map or individual segments with skipped frames: the frames the
+loop stores are read back (`Segmentation.get_volume`, default request) as a volume in which frame `i` — which carries
+`pixel_array[plane i]` — fills slot `h·(plane i − k₁)`, every voxel of that slot lies where the INPUT affine puts plane
+`plane i` (read-back geometry ∘ stored slot = input affine ∘ array index), and the slots come in the order of the
+DimensionIndexValues. -/
+theorem constructor_frames_roundtrip {g : Geom} (hg : Admissible g) (nonempty : List Bool) (om labelmap : Bool)
+    (described : List Nat) (hd : described.Nodup) (present : Option Nat → Nat → Bool) (rows cols : Int)
+    (hr : 1 ≤ rows) (hc : 1 ≤ cols) :
+    ∃ frames, segFrames ((List.range nonempty.length).map (planePosition g)) g.d2 g.d1 nonempty om
+        (segmentsIterable labelmap described) present = .ok frames ∧
+      (frames ≠ [] → ∃ st out, ∃ k₁ : Nat,
+        framesStack g.d2 g.d1 g.s1 g.s2 (some g.s0) ((List.range nonempty.length).map (planePosition g)) frames = .ok st ∧
+        getVolumeStack .seg st rows cols true ({} : Request) = .ok out ∧
+        (∀ i (hi : i < frames.length),
+          (i, handInt g * ((frames[i].plane : Int) - k₁)) ∈ out.frames ∧
+          0 ≤ handInt g * ((frames[i].plane : Int) - k₁) ∧ handInt g * ((frames[i].plane : Int) - k₁) < out.n ∧
+          ∀ r c : Int, out.aff.apply (handInt g * ((frames[i].plane : Int) - k₁)) r c = g.aff.apply (frames[i].plane : Int) r c) ∧
+        (∀ i j (hi : i < frames.length) (hj : j < frames.length),
+          frames[i].div < frames[j].div ↔
+            handInt g * ((frames[i].plane : Int) - k₁) < handInt g * ((frames[j].plane : Int) - k₁))) := by
+  have hinj : ∀ a < nonempty.length, ∀ b < nonempty.length,
+      distOf (planePosition g) g.d2 g.d1 a = distOf (planePosition g) g.d2 g.d1 b → a = b := fun a _ b _ h => volume_dist_inj hg a b h
+  obtain ⟨frames, hok, _⟩ := mem_segFrames (planePosition g) g.d2 g.d1 nonempty hinj om (segmentsIterable labelmap described) present
+  refine ⟨frames, hok, ?_⟩
+  intro hne
+  have hks : frames.map (fun f => f.plane) ≠ [] := by simpa using hne
+  have hu := framesUnique_volume hg nonempty om labelmap described hd present frames hok
+  obtain ⟨k₁, _, k₂, _, out, hout, hb, _, _, _, happ, hfr⟩ :=
+    seg_volume_roundtrip hg (frames.map (fun f => f.plane)) hks (frames.filterMap (fun f => f.seg)) hu rows cols hr hc
+  refine ⟨_, out, k₁, framesStack_volume hg nonempty om _ present frames hok, hout, ?_, ?_⟩
+  · intro i hi
+    have hi' : i < (frames.map (fun f => f.plane)).length := by simpa using hi
+    have hget : (frames.map (fun f => f.plane))[i] = frames[i].plane := by simp
+    have hmem : frames[i].plane ∈ frames.map (fun f => f.plane) := List.mem_map.mpr ⟨frames[i], List.getElem_mem hi, rfl⟩
+    refine ⟨?_, (hb _ hmem).1, (hb _ hmem).2, ?_⟩
+    · rw [hfr, List.mem_map]
+      exact ⟨(frames[i].plane, i), List.mem_zipIdx_iff_getElem?.mpr (by simp [hi]), rfl⟩
+    · intro r c
+      rw [happ]
+      have h2 := handInt_sq g
+      have : (k₁ : Int) + handInt g * (handInt g * ((frames[i].plane : Int) - k₁)) = (frames[i].plane : Int) := by
+        have : (k₁ : Int) + handInt g * (handInt g * ((frames[i].plane : Int) - k₁))
+            = (k₁ : Int) + (handInt g * handInt g) * ((frames[i].plane : Int) - k₁) := by ring
+        rw [this, h2]; ring
+      rw [this]
+  · intro i j hi hj
+    rw [div_lt_iff (planePosition g) g.d2 g.d1 nonempty hinj om _ present frames hok frames[i] frames[j]
+      (List.getElem_mem hi) (List.getElem_mem hj), volume_dist_lt hg]
+    have e1 : handInt g * ((frames[i].plane : Int) - k₁) = handInt g * (frames[i].plane : Int) - handInt g * k₁ := by ring
+    have e2 : handInt g * ((frames[j].plane : Int) - k₁) = handInt g * (frames[j].plane : Int) - handInt g * k₁ := by ring
+    rw [e1, e2]
+    omega
+
+/-- **Handedness and the stored order**: for a volume the dimension index values ascend with the plane index when the
+volume is right-handed and descend when it is left-handed (the mirror image along the stacking axis is already in the
+stored order). -/
+theorem volume_dimension_index_and_handedness {g : Geom} (hg : Admissible g) (nonempty : List Bool) (om : Bool)
+    (segs : List (Option Nat)) (present : Option Nat → Nat → Bool) (frames : List Frame)
+    (hok : segFrames ((List.range nonempty.length).map (planePosition g)) g.d2 g.d1 nonempty om segs present = .ok frames)
+    (f f' : Frame) (hf : f ∈ frames) (hf' : f' ∈ frames) :
+    f.div < f'.div ↔ handInt g * (f.plane : Int) < handInt g * (f'.plane : Int) := by
+  rw [div_lt_iff (planePosition g) g.d2 g.d1 nonempty (fun a _ b _ h => volume_dist_inj hg a b h) om segs present frames hok f f' hf hf',
+    volume_dist_lt hg]
+
+/-- **Bridge (tie T): the loop of the model uses the regenerated expressions of the current source** — the skip test
+(`segment_number is not None`, `omit_empty_frames and not np.any(segment_array)`), the dimension index value
+(`[plane_dim_ind]`), the first value of `enumerate(plane_sort_index, 1)` and the `omit_empty_frames` the loop sees after
+the all-empty decision (TC03loop). -/
+theorem frame_loop_uses_the_source :
+    (∀ (s : Option Nat) (om present : Bool), frameSkipped (s.map Int.ofNat) om present = .ok (skipped s om present)) ∧
+    (∀ d p : Int, framePlaneIndexValue d p = .ok d) ∧
+    frameEnumStart = 1 ∧
+    (∀ (nonempty : List Bool) (om : Bool), omitEffective om (nonemptyIdx nonempty).isEmpty = .ok (omitEff nonempty om)) ∧
+    (∀ (segs : List (Option Nat)) (psi : List Nat) (om : Bool) (present : Option Nat → Nat → Bool),
+      frameLoop segs psi om present = segs.flatMap (fun s => planeFrames s om present frameEnumStart psi)) :=
+  ⟨frameSkipped_eq, framePlaneIndexValue_eq, frameEnumStart_eq, omitEffective_eq, fun _ _ _ _ => rfl⟩
+
+set_option maxRecDepth 20000 in
+/-- **Fingerprint: the frame loop and the plane order** (`frameLoop`, `planeFrames`, `includedPlanes`, `planeSortIndex`,
+`Frame.indexValues` were written from these expressions; change detector, no clause content): segments outside, planes in
+the order of the sort index inside; a frame takes pixels, position and source reference from the SAME `plane_index`;
+omitted planes leave the sort index by membership; encoded frames of a worker pool are gathered in submission order; the
+sort index is `np.unique(distances, return_index=True)` of `normal · position` with the right-handed normal of the volume
+index convention; DimensionIndexValues = `[segment] + [position index]`. -/
+theorem frame_loop_wiring :
+    (wiringLoop.lookup "loop.outer.iter" = some "segments_iterable" ∧
+     wiringLoop.lookup "loop.segments_iterable"
+       = some "[None] if segmentation_type == SegmentationTypeValues.LABELMAP else described_segment_numbers" ∧
+     wiringLoop.lookup "loop.inner.target" = some "(plane_dim_ind, plane_index)" ∧
+     wiringLoop.lookup "loop.inner.iter" = some "enumerate(plane_sort_index, 1)") ∧
+    (wiringLoop.lookup "frame.plane_array" = some "pixel_array[plane_index]" ∧
+     wiringLoop.lookup "frame.pffg.plane_position" = some "plane_positions[plane_index]" ∧
+     wiringLoop.lookup "frame.pffg.source_image_index" = some "plane_index" ∧
+     wiringLoop.lookup "frame.pffg.segment_number" = some "segment_number" ∧
+     wiringLoop.lookup "frame.pffg.dimension_index_values" = some "dimension_index_values") ∧
+    (wiringLoop.lookup "omit.some_nonempty.plane_sort_index"
+       = some "[ind for ind in plane_sort_index if ind in included_plane_indices_set]" ∧
+     wiringLoop.lookup "omit.some_nonempty.included_plane_indices_set" = some "set(included_plane_indices)" ∧
+     wiringLoop.lookup "omit.nonempty_call" = some "self._get_nonempty_plane_indices(occupied_array)" ∧
+     wiringLoop.lookup "nonempty.indices" = some "[i for i, frm in enumerate(pixel_array) if np.any(frm)]" ∧
+     wiringLoop.lookup "nonempty.all_empty_if" = some "len(source_image_indices) == 0") ∧
+    (wiringLoop.lookup "encode.gather" = some "[fut.result() for fut in frame_futures]" ∧
+     wiringLoop.lookup "sort.call.index_convention" = some "VOLUME_INDEX_CONVENTION" ∧
+     wiringLoop.lookup "sort.call.image_orientation"
+       = some "plane_orientation[0].ImageOrientationPatient if self._coordinate_system == CoordinateSystemNames.PATIENT else None" ∧
+     wiringLoop.lookup "sort.call.result" = some "(plane_position_values, plane_sort_index)") ∧
+    (wiringLoop.lookup "pffg.all_index_values" = some "dimension_index_values | [int(segment_number)] + dimension_index_values" ∧
+     wiringLoop.lookup "pffg.all_index_values_if" = some "segment_number is None" ∧
+     wiringLoop.lookup "pffg.elements"
+       = some "00209113=plane_position ; 00209157=all_index_values ; 0048021a=plane_position ; 0062000b=int(segment_number)") ∧
+    (wiringIndexValues.lookup "patient.unique" = some "_, plane_sort_indices = np.unique(origin_distances, return_index=True)" ∧
+     wiringIndexValues.lookup "patient.origin_distances" = some "_get_slice_distances(plane_position_values[:, 0, :], normal_vector)" ∧
+     wiringIndexValues.lookup "patient.normal_vector"
+       = some "get_normal_vector(image_orientation, index_convention=index_convention, handedness=handedness)" ∧
+     wiringIndexValues.lookup "default.handedness" = some "AxisHandedness.RIGHT_HANDED" ∧
+     wiringIndexValues.lookup "refused_if" = some "len(plane_sort_indices) != len(plane_positions)" ∧
+     wiringIndexValues.lookup "returns" = some "(plane_position_values, plane_sort_indices)") ∧
+    (wiringDistances.lookup "slice_distances.body"
+       = some "origin_distances = normal_vector[None] @ image_positions.T ; origin_distances = origin_distances.squeeze(0) ; return origin_distances" ∧
+     wiringDistances.lookup "normal.right_handed" = some "n = np.cross(rotation_columns[0], rotation_columns[1])") := by
+  refine ⟨⟨by decide, by decide, by decide, by decide⟩, ⟨by decide, by decide, by decide, by decide, by decide⟩,
+    ⟨by decide, by decide, by decide, by decide, by decide⟩, ⟨by decide, by decide, by decide, by decide⟩,
+    ⟨by decide, by decide, by decide⟩, ⟨by decide, by decide, by decide, by decide, by decide, by decide⟩,
+    ⟨by decide, by decide⟩⟩
+
 /-! ## Non-vacuity: the hypotheses are satisfiable by concrete, non-trivial inputs -/
 
 /-- a left-handed, anisotropic, axis-swapped geometry (directions: d0 = −z, d1 = x, d2 = y) -/
@@ -881,5 +1088,18 @@ example : SegGeomTie.fromAttributesGen ⟨1, 2, 3⟩ ⟨1, 0, 0⟩ ⟨0, 1, 0⟩
 example : vpIsPerp (dot ⟨0, 0, 1⟩ ⟨0, 0, 5⟩ / 5) = .ok true := by
   rw [SegGeomTie.isPerp_eq_gen _ _ 5 (by norm_num) (by norm_num [dot])]
   norm_num [isPerp, dot, tolPerp]
+
+-- section 8: planes of a left-handed volume lie at pairwise different distances; a concrete run of the loop (planes
+-- 3, 2, 0 kept in that order for a left-handed volume, the frame of segment 1 in plane 2 skipped, dimension index 2 unused)
+def presentEx : Option Nat → Nat → Bool := fun s k => (s == some 1 && k != 2) || (s == some 2 && k == 3)
+example : ∀ a < 4, ∀ b < 4, distOf (planePosition gLeft) gLeft.d2 gLeft.d1 a = distOf (planePosition gLeft) gLeft.d2 gLeft.d1 b → a = b :=
+  fun a _ b _ h => volume_dist_inj (by constructor <;> (try constructor) <;> norm_num [gLeft, dot]) a b h
+example : segFrames ((List.range 4).map (planePosition gLeft)) gLeft.d2 gLeft.d1 [true, false, true, true] true
+    (segmentsIterable false [1, 2]) presentEx = .ok [⟨some 1, 3, 1⟩, ⟨some 1, 0, 3⟩, ⟨some 2, 3, 1⟩] := by decide +kernel
+example : ([1, 2] : List Nat).Nodup ∧ (segmentsIterable false [1, 2]).Pairwise (fun a b => segRank a < segRank b) ∧
+    (segmentsIterable true [1, 2]).Pairwise (fun a b => segRank a < segRank b) := by decide
+example : segFrames ((List.range 3).map (fun _ => (⟨0, 0, 1⟩ : V3))) ⟨1, 0, 0⟩ ⟨0, 1, 0⟩ [true, true, true] false [none] (fun _ _ => true)
+    = .error .value := by decide +kernel
+example : frameSkipped (some 2) true false = .ok true ∧ frameSkipped none true false = .ok false := by decide
 
 end HdVerif.C03
